@@ -54,10 +54,10 @@ def replay_case(ctx, case):
 
 
 def run(ctx):
-    n = 300 if ctx.tier == 'quick' else 4000
     names = sorted(ops.OPS)
+    n = len(names) * (8 if ctx.tier == 'quick' else 100)
     for i in range(n):
-        name = names[i % len(names)] if i < 2 * len(names) else None
+        name = names[i % len(names)]
         case = ops.gen_case(ctx.rng, ctx.tier, name, P=ctx.rng.choice([2, 2, 3, 4]))
         ctx.evaluations += 1
         ctx.count('op=' + case['op'].split(':')[0], 'P=%d' % case['P'], 'D=%d' % case['D'])
